@@ -59,3 +59,19 @@ Example total_example :
                 (mkReq true false (fb 4609434218613702656) (fb 4609434218613702656) 0 0) [] 201
   = Ok [(EmptyString, [("1", 100); ("0", 50)]%string)].
 Proof. vm_compute. reflexivity. Qed.
+
+Section Realloc.
+Variable sortf : list keyed -> outcome (list keyed).
+Hypothesis sortf_perm : forall l, exists l', sortf l = Ok l' /\ Permutation l' l.
+Theorem calculate_realloc_total info base maxshare origin raw order fuel :
+  0 < base -> (default_fuel (realloc_info info origin) <= fuel)%nat ->
+  exists r, calculate_realloc_g sortf info base maxshare origin raw order fuel = Ok r.
+Proof.
+  intros Hb Hf. unfold calculate_realloc_g. fold (realloc_info info origin).
+  destruct (wreq_validate _) as [[|]|req]; eauto.
+  destruct (if rq_keep raw then _ else _).
+  - destruct (get_cpu_plans_total sortf sortf_perm (realloc_info info origin) (wr_cpumap origin) base maxshare req order fuel Hb Hf) as (plans & E & _).
+    rewrite E. cbn [bind]. destruct plans; eauto.
+  - destruct (do_alloc_by_memory _ _ _); eauto.
+Qed.
+End Realloc.
